@@ -53,6 +53,28 @@ def py_colitem(i, table):
     return py_colarg(i, table)
 
 
+LIT_KINDS = ("vali", "vals", "valf")
+
+
+def build_crit(t):
+    """a criterion spec -> pypika object, going through the PUBLIC api where there is one: a membership test over literal
+    values is built by Term.isin(list) / Term.notin(list) (which wrap the values themselves; an EMPTY list included),
+    AND/OR/NOT recurse; everything else is the terms family's constructor-level build.  On the unchanged tree the result
+    is the same object tree as tf.build(t), which is what the Gallina side (tf.coq) describes."""
+    import pypika.terms as T
+    import pypika.enums as E
+    k = t[0]
+    if k == "in" and t[2][0] == "tuple" and t[2][2] is None and t[4] is None and all(x[0] in LIT_KINDS and x[2] is None for x in t[2][1]):
+        vals = [int(x[1]) if x[0] == "vali" else (float(x[1]) if x[0] == "valf" else x[1]) for x in t[2][1]]
+        term = tf.build(t[1])
+        return term.notin(vals) if t[3] else term.isin(vals)
+    if k == "cplx" and t[4] is None:
+        return T.ComplexCriterion(getattr(E.Boolean, t[1] + "_"), build_crit(t[2]), build_crit(t[3]))
+    if k == "not" and t[2] is None:
+        return T.Not(build_crit(t[1]))
+    return tf.build(t)
+
+
 def start_builder(case):
     from pypika import Table
     Q = qclass(case["cls"])
@@ -84,7 +106,7 @@ def apply_calls(q, tbl, calls):
         elif k == "fromselect":
             q = q.from_(Table(call[1])).select(*[tf.build(t) for t in call[2]])
         elif k == "where":
-            q = q.where(tf.build(call[1]))
+            q = q.where(build_crit(call[1]))
         elif k == "limit":
             q = q.limit(call[1])
         elif k == "into":
